@@ -35,10 +35,7 @@ def cases(tier, which=("J",), prop="C21"):
                        dict(config="chain", order=[0, 1], which=W), weight=60, shard_depth=6))
         cs.append(Case("lik:hist:e2,e0", ep_cases.h_likelihood,
                        dict(config="hist", order=[2, 0], which=W), weight=60, shard_depth=6))
-        if "I" not in which:    # two twin-block visits with invariant I: 2400 s exceeded / unknown
-            cs.append(Case("blk:blocks:b1,b1", ep_cases.h_likelihood,
-                           dict(config="blocks", order=[1, 1], unphased=True, which=W), weight=60,
-                           shard_depth=4))
+        # (two visits of the twin block: 2400 s exceeded / solver unknown - outside the bound)
         cs.append(Case("prior:chain:em2", ep_cases.h_prior,
                        dict(config="chain", em_maxitt=2, which=W), weight=10))
     return cs
